@@ -9,7 +9,7 @@ class Contract:
                  props=(), for_classes=None, effects="deterministic", kwargs=None,
                  labels=None, exc_ensures=(), pure=False, havoc_all=False, abstract=False,
                  replay=None, note=None, ghost_entry=(), opaque_result=False, axiom_sets=(),
-                 preserves=(), assumed_ensures=(), lenient_types=False):
+                 preserves=(), assumed_ensures=(), lenient_types=False, receiver_keeps=None, havoc_only_if=None, quiet_modifies=()):
         self.qual = qual
         self.params = {k: S.parse_type(v) for k, v in (params or {}).items()}
         self.returns = S.parse_type(returns) if returns is not None else S.NONE
@@ -40,6 +40,14 @@ class Contract:
         # havoc, for every object of that class in scope (callbacks use only the public API)
         self.preserves = list(preserves)
         self.lenient_types = lenient_types
+        # (class, excluded fields, note): when the receiver is statically an instance of class, the havoc of a
+        # callback leaves all its declared fields except the excluded ones at their pre-call values (an
+        # *assumption* about callbacks, applied structurally so that facts about the receiver survive syntactically)
+        self.receiver_keeps = receiver_keeps
+        # spec expression over the pre-state: when it is false the call changes no object that existed before
+        # it (checked on the function itself by the nohavoc.* obligations; used at call sites to keep the heap)
+        self.havoc_only_if = havoc_only_if
+        self.quiet_modifies = list(quiet_modifies)     # what may still change when havoc_only_if is false
         self.assumed_ensures = list(assumed_ensures)   # assumed at call sites, NOT verified (listed as assumptions)
 
 
@@ -84,6 +92,7 @@ class Registry:
         self.axiom_sets = {}     # name -> [(formula, note)] : scoped dependency axioms
         self.global_invs = []    # [(name, fn(eng, state) -> z3 Bool)]: global heap invariants (assumed at entry / after havoc)
         self.static_refs = {}
+        self.variants = {}              # (qual, receiver class) -> Contract (constructors only)
         self.immutable_fields = set()   # field keys written only by constructors (checked by a frame scan)
         self.ghost_calls = {}    # (function qual, callee attribute name) -> {"asserts": [...], "assign": [...]}
         self.variant = None
@@ -93,6 +102,24 @@ class Registry:
         c = Contract(qual, **kw)
         self.contracts[qual] = c
         return c
+
+    def contract_variant(self, qual, classes, **kw):
+        """A constructor contract specific to some receiver classes (only for __init__: a constructor runs
+        on an exactly known class, through construction or through super()/explicit base calls on self)."""
+        assert qual.endswith(".__init__"), "variants are for constructors only"
+        c = Contract(qual, **kw)
+        c.for_classes = list(classes)
+        c.variant = True
+        for cl in classes:
+            self.variants[(qual, cl)] = c
+        base = self.contracts.get(qual)
+        if base is not None and base.for_classes:
+            base.for_classes = [x for x in base.for_classes if x not in classes]
+        return c
+
+    def contract_for(self, qual, cls=None):
+        v = self.variants.get((qual, cls)) if cls else None
+        return v if v is not None else self.contracts.get(qual)
 
     def loop_invariant(self, qual, loop=0, **kw):
         self.loops[(qual, loop)] = LoopSpec(qual, loop, **kw)
